@@ -34,14 +34,26 @@ func (r *RockDB) VerifIsBatching() bool {
 // (TTLChecker.check into a local batched buffer, then commit of the buffer) in the calling
 // goroutine, as the background goroutine of the local_deletion policy does every 5 minutes.
 func (r *RockDB) VerifValidExpireTick() (int, error) {
-	e, ok := r.expiration.(*localExpiration)
-	if !ok {
+	var c *TTLChecker
+	switch e := r.expiration.(type) {
+	case *localExpiration:
+		c = e.TTLChecker
+	case *compactExpiration:
+		c = e.localExp.TTLChecker
+	default:
 		return 0, nil
 	}
 	buf := newLocalBatchedBuffer(r, localBatchedBufSize)
 	defer buf.Destroy()
-	err := e.TTLChecker.check(buf, make(chan struct{}))
+	err := c.check(buf, make(chan struct{}))
 	n := len(buf.buff)
 	buf.commit()
 	return n, err
+}
+
+// VerifStopBackgroundExpire stops the background goroutine of the expiration policy (the
+// production Stop of the policy object), so that a harness that runs the sweep itself with
+// VerifValidExpireTick sees no engine change it did not cause.
+func (r *RockDB) VerifStopBackgroundExpire() {
+	r.expiration.Stop()
 }
